@@ -179,7 +179,11 @@ reg("C20",
                             P.gen_bucket_programs(G.Rng(seed + 27), N(tier, 30, 300)) + P.gen_bucket_shape_programs() +
                             P.gen_metadata_programs(G.Rng(seed + 28), N(tier, 30, 300))),
     monitors=[],
-    rule="every program of the other streams plus hostile on-disk states (foreign checksummed records with 9 kinds of "
+    extra=lambda seed, tier, flavours: LG.leg_mmap_failure(
+        P.gen_msync_programs(), flavours, [P.mon_survives, lambda rr: mon_content_valid(rr)], fail_env="FAIL_MSYNC"),
+    rule="(plus mapped writers whose caller carries on after failed writes while EVERY msync(2) fails - LD_PRELOAD shim: the "
+         "process must answer every operation: no SIGBUS from a store through a mapping whose file was cut) "
+         "every program of the other streams plus hostile on-disk states (foreign checksummed records with 9 kinds of "
          "odd integrity text, directories / files where the other is expected), judged on panic / hang and compared with "
          "the model (which has the same panics as explicit results)")
 
@@ -363,7 +367,9 @@ reg("C13",
         LG.leg_resumed_writer(flavours if tier == "thorough" else flavours[:1]),
         *[LG.leg_writer_faults(fl, tier) for fl in (flavours if tier == "thorough" else flavours[:1])],
         LG.leg_mmap_failure(P.gen_size_matrix(G.Rng(seed + 132)) + R_corpus("C13"), flavours,
-                            [mon_generic, P.mon_size_matrix, lambda rr: mon_content_valid(rr)])),
+                            [mon_generic, P.mon_size_matrix, lambda rr: mon_content_valid(rr)]),
+        LG.leg_mmap_failure(P.gen_msync_programs(), flavours, [P.mon_survives, lambda rr: mon_content_valid(rr)],
+                            fail_env="FAIL_MSYNC")),
     nontrivial=lambda rr: True,
     rule="errno injection with strace: for write / write (async) / write_hash / read / metadata / copy / remove / list, "
          "every syscall class x (first, middle, last occurrence in quick; every occurrence in thorough) x {EIO, ENOSPC "
